@@ -67,11 +67,12 @@ template <typename Assertion>
     std::string f = msg.file != nullptr ? msg.file : "?";
     auto slash  = f.find_last_of('/');
     probe::file = slash == std::string::npos ? f : f.substr(slash + 1);
-    // the failing location the handler is given: file, a positive line, and the expression text "(<expr>)"
+    // the failing location the handler is given: file, a positive line, a function name, and the expression text "(<expr>)"
     std::string e = msg.expression != nullptr ? msg.expression : "?";
     if (e.size() >= 2 && e.front() == '(' && e.back() == ')') { e = e.substr(1, e.size() - 2); }
     for (auto& ch : e) { if (ch == ' ') { ch = '_'; } }
-    probe::expr = msg.line > 0 ? e : "?noline";
+    // ... and the enclosing function's name (hosted builds pass __PRETTY_FUNCTION__ / __func__)
+    probe::expr = msg.line > 0 ? ((msg.func != nullptr && msg.func[0] != '\0') ? e : "?nofunc") : "?noline";
     if (probe::with_expr) { probe::file += " " + probe::expr; }
     std::longjmp(probe::jmp, 1);
 }
@@ -407,6 +408,15 @@ static bool str_probe_n(long long k, std::string const& op, std::vector<u64> con
         auto const d = static_cast<long long>(A(1));
         run([&] { s.erase(s.cbegin() + static_cast<long long>(A(0)), s.cbegin() + static_cast<long long>(A(0)) + d); });
         pre = A(0) <= size && d >= 0 && static_cast<u64>(d) <= size - A(0);
+    }
+    // iterator-based replace overloads: first = begin() + a0, last = first + a1 (either may be negative), a2 = source length / count
+    else if (op == "rep_it" || op == "rep_it_ptr" || op == "rep_it_cstr" || op == "rep_it_fill") {
+        auto const a0 = static_cast<long long>(A(0)); auto const d = static_cast<long long>(A(1));
+        if (op == "rep_it") { S o(SRCC, Z(2)); run([&] { s.replace(s.cbegin() + a0, s.cbegin() + a0 + d, o); }); }
+        else if (op == "rep_it_ptr") { run([&] { s.replace(s.cbegin() + a0, s.cbegin() + a0 + d, SRCC, Z(2)); }); }
+        else if (op == "rep_it_cstr") { auto const* c = cstr(A(2)); run([&] { s.replace(s.cbegin() + a0, s.cbegin() + a0 + d, c); }); }
+        else { run([&] { s.replace(s.cbegin() + a0, s.cbegin() + a0 + d, Z(2), C('z')); }); }
+        pre = a0 >= 0 && static_cast<u64>(a0) <= size && d >= 0 && static_cast<u64>(d) <= size - static_cast<u64>(a0);
     }
     else if (op == "era_pos") { run([&] { s.erase(s.cbegin() + static_cast<long long>(A(0))); }); pre = A(0) < size; }
     else if (op == "era") { run([&] { s.erase(Z(0), Z(1)); }); pre = A(0) <= size; }
@@ -777,23 +787,29 @@ bool vh::run_case(std::string const& op, Toks& in, Out& impl, Out& ref)
         doc(ref, ext == ~0ULL || count == ext);
         return true;
     }
-    if (op == "sv") {
+    if (op == "sv" || op == "wsv") {
+        // string_view (char) and wstring_view (wchar_t: 4-byte elements)
         auto n = in.num(); auto o = in.str(); auto a = in.sz(); auto b = in.sz();
-        std::unique_ptr<char[]> heap(new char[static_cast<std::size_t>(n)]);   // exact size, no terminator (see span)
-        char* text = heap.get();
-        for (long long i = 0; i < n; ++i) { text[i] = static_cast<char>('a' + i); }
-        etl::string_view s(text, static_cast<std::size_t>(n));
         u64 sz = static_cast<u64>(n);
-        char dest[16];
-        watch(impl, s, [&] {
-            if (o == "idx") { sink = s[static_cast<std::size_t>(a)]; }
-            else if (o == "front") { sink = s.front(); }
-            else if (o == "back") { sink = s.back(); }
-            else if (o == "rmp") { s.remove_prefix(static_cast<std::size_t>(a)); }
-            else if (o == "rms") { s.remove_suffix(static_cast<std::size_t>(a)); }
-            else if (o == "copy") { sink = static_cast<long long>(s.copy(dest, static_cast<std::size_t>(a > 8 ? 8 : a), static_cast<std::size_t>(b))); }
-            else { sink = static_cast<long long>(s.substr(static_cast<std::size_t>(a), static_cast<std::size_t>(b)).size()); }
-        });
+        auto probe_sv = [&]<typename Ch>() {
+            std::unique_ptr<Ch[]> heap(new Ch[static_cast<std::size_t>(n)]);   // exact size, no terminator (see span)
+            Ch* text = heap.get();
+            for (long long i = 0; i < n; ++i) { text[i] = static_cast<Ch>('a' + i); }
+            etl::basic_string_view<Ch> s(text, static_cast<std::size_t>(n));
+            Ch dest[16];
+            watch(impl, s, [&] {
+                if (o == "idx") { sink = s[static_cast<std::size_t>(a)]; }
+                else if (o == "front") { sink = s.front(); }
+                else if (o == "back") { sink = s.back(); }
+                else if (o == "rmp") { s.remove_prefix(static_cast<std::size_t>(a)); }
+                else if (o == "rms") { s.remove_suffix(static_cast<std::size_t>(a)); }
+                else if (o == "copy") { sink = static_cast<long long>(s.copy(dest, static_cast<std::size_t>(a > 8 ? 8 : a), static_cast<std::size_t>(b))); }
+                // compare(pos1, count1, v) = substr(pos1, count1).compare(v): substr's check is the one that fires
+                else if (o == "cmp3") { sink = s.compare(static_cast<std::size_t>(a), static_cast<std::size_t>(b), s); }
+                else { sink = static_cast<long long>(s.substr(static_cast<std::size_t>(a), static_cast<std::size_t>(b)).size()); }
+            });
+        };
+        if (op == "sv") { probe_sv.template operator()<char>(); } else { probe_sv.template operator()<wchar_t>(); }
         bool pre = true;
         if (o == "idx") { pre = a < sz; }
         else if (o == "front" || o == "back") { pre = sz > 0; }
